@@ -33,6 +33,10 @@ Violation ids: "<clause>.<level>" (level in component/block/assembly/core), with
 that a finding about that circumstance cannot mask the clause elsewhere):
     .cut-block        the object is a component of a block whose symmetry factor is not 1
     .all-zero         every nuclide of the object has been set to zero by the edits before
+    .after-child-resize / .after-child-added / .after-child-removed     (appended last) earlier in this sequence, at assembly or core
+                      level, the geometry of ONE child was changed through the public API (Block.setHeight with / without conserveMass;
+                      Assembly.add / insert of a block copy; Assembly.remove; Core.removeAssembly) - state held above block level must
+                      not go stale: e.g. setNumberDensity.readback.assembly.after-child-resize, atoms.core.after-child-removed
     .ambiguous-name   the selected name is a nuclide present here (natural element, e.g. MO) AND the symbol of an element of which
                       other isotopes are present in the object (e.g. MO98)
   accounting   symmetry.factor  volume.* volume.children.* area.block volume.area-x-height.* volume.derived-fills.block  nuclides.*
@@ -43,8 +47,16 @@ that a finding about that circumstance cannot mask the clause elsewhere):
                addNuclide updateNumberDensities setNumberDensities changeNDensByFactor addMass removeMass setMass addMasses setMasses
                setMassFracs;  wipe.others.*  changeNDensByFactor.detailed.*  setMassFracs.proportions.* setMassFracs.density.*
                setMasses.unlisted.*
+  geometry     setHeight.readback.block setHeight.conserve-mass.block (up to the trace density armi adds) geometry.raises.*
   densityTools dt.massfracs-sum dt.massfracs-value dt.massdensity-formula dt.ndens-roundtrip dt.massdensity-roundtrip
                dt.massfracs-roundtrip dt.normalize dt.mass-formula dt.mass-ndens-inverse dt.ndens-mass-inverse dt.mass-total units.avogadro
+
+Geometry sequences.  (i) in every seeded edit sequence at assembly / core level a geometry change of one child precedes an edit with
+probability 1/4;  (ii) staged sequences ("geometry_mode": "scenario"): read getVolumeFractions / getNumberDensities and apply one edit at
+the level, change one child's geometry, then setNumberDensity / updateNumberDensities / setMass / addMass / setMassFracs preferring
+nuclides that only SOME children hold (U235 in fuel blocks, B10 in control assemblies ...), a second geometry change at a seeded
+position; after every geometry change the accounting clauses are re-evaluated on the changed block, its assembly and the object, and
+after every setter the same-level read-back (1e-12) and the frame.  Loaded state restored afterwards by script plumbing.
 
 Replay: --replay '<the "input" of a violation>' re-runs that object's accounting clauses, or (when it carries "seed") that edit sequence.
 """
@@ -78,14 +90,17 @@ B = Bounded(
     "heights / temperatures; (1) accounting clauses against a naive walk over the leaves, all nuclides in bulk + a seeded sample of "
     "nuclide / element / list selections; (2) seeded edit sequences (every setter, add / remove nuclide) at component, block, assembly "
     "and core level, each starting from the loaded state, read-back + frame checked after every call and the accounting clauses "
-    "re-evaluated at the end; (3) seeded compositions through the densityTools conversions.  distinct = (source, object path, "
+    "re-evaluated at the end; at assembly / core level geometry changes of one child (block height, block added / removed, assembly removed) "
+    "are interleaved and staged before setters on nuclides only some children hold; (3) seeded compositions through the densityTools conversions.  distinct = (source, object path, "
     "clause group / sequence seed); non-trivial = the object holds nuclides and has non-zero volume",
-    bound="quick: 2 reactors + edge variant: every block, assembly and core, the components of 1-2 seeded blocks per assembly (about 2250 "
-    "components), 19 shape classes x 3 materials x 3 multiplicities = 171 generated blocks; about 660 edit sequences of length <= 6 "
-    "(about 2000 setter calls) over 46 reactor targets + 3 per generated block; 300 compositions of <= 12 nuclides.  thorough: every "
-    "component, every nuclide through the single-nuclide API, 6 materials x 6 multiplicities = 684 generated blocks, about 10000 "
-    "sequences of length <= 10 (about 50000 setter calls) over 400 reactor targets, 5000 compositions.  Only hex blocks; only the "
-    "framework's materials (none has composition-dependent expansion); third-core periodic and full-core symmetry only",
+    bound="quick: smallest + default reactor: every block, assembly and core, the components of 1-2 seeded blocks per assembly; edge variant: "
+    "the core and its symmetry-line assemblies (about 1850 components in all); 19 shape classes x 3 materials x 3 multiplicities = 171 "
+    "generated blocks; about 680 edit sequences of length <= 6 over 46 reactor targets + 3 per generated block, with about 50 child "
+    "geometry changes (resize with / without mass conservation, add / insert / remove block, remove assembly) inside 66 assembly / core "
+    "sequences of which 21 staged (7 assemblies incl. the cut ones, 3 cores); 300 compositions of <= 12 nuclides.  thorough: every "
+    "component of all three, every nuclide through the single-nuclide API, 6 materials x 6 multiplicities = 684 generated blocks, about "
+    "10500 sequences of length <= 10 over 400 reactor targets, about 170 staged sequences over 22 assemblies and 3 cores, 5000 compositions.  "
+    "Only hex blocks; only the framework's materials (none has composition-dependent expansion); third-core periodic / full-core only",
 )
 ACC = 1e-10
 SET = 1e-12
@@ -100,6 +115,7 @@ B.extra["skipped"] = {}
 B.extra["ops_applied"] = {}
 B.extra["levels_edited"] = {}
 B.extra["geometry_changes"] = {}
+B.extra["t_staged_by"] = {}
 B.extra["shapes_covered"] = []
 B.extra["symmetry_factors_seen"] = []
 B.extra["objects_accounted"] = {"component": 0, "block": 0, "assembly": 0, "core": 0}
@@ -813,10 +829,13 @@ def do_geometry(src, o, lev, rng, info, gst, kind=None):
     """Change the geometry of ONE child (assembly level: a block; core level: a block of one assembly, or one whole assembly) through
     the public API; sets the circumstance suffix; re-evaluates the accounting clauses on the changed child and on o."""
     gst.touched = True
+    CIRC[0] = ""
     assems = [o] if lev == "assembly" else [a for a in o if len(a) > 0]
     a = rng.choice(assems)
     kinds = GEO_KINDS + (["remove-assembly"] if lev == "core" and len(assems) > 2 else [])
     kind = kind or rng.choice(kinds)
+    if kind == "remove-assembly" and "remove-assembly" not in kinds:
+        kind = "resize"
     if kind == "remove-block" and len(a) < 2:
         kind = "resize"
     bi = rng.randrange(len(a))
@@ -832,7 +851,8 @@ def do_geometry(src, o, lev, rng, info, gst, kind=None):
         else:
             m0 = {n: b.getMass(n) for n in sorted(b.getNuclides())}
             b.setHeight(h0 * f, conserveMass=True, adjustList=sorted(b.getNuclides()))
-            bad = [[n, m, b.getMass(n)] for n, m in m0.items() if not close(m, b.getMass(n), ACC)]
+            slack = 2.0 * TRACE / C * b.getVolume()  # adjustDensity adds the trace density "so components remember"
+            bad = [[n, m, b.getMass(n)] for n, m in m0.items() if abs(m - b.getMass(n)) > ACC * max(abs(m), abs(b.getMass(n))) + slack * W(n)]
             check(not bad, "setHeight.conserve-mass.block", "setHeight(conserveMass=True) over all nuclides changed a nuclide's mass in the block", dict(info, geometry=rec, bad=bad[:3]))
         check(close(b.getHeight(), h0 * f, SET), "setHeight.readback.block", "block height does not read back", dict(info, geometry=rec, got=b.getHeight()))
         CIRC[0] = ".after-child-resize"
@@ -864,7 +884,7 @@ def do_geometry(src, o, lev, rng, info, gst, kind=None):
     PREFER[:] = partial_nuclides(o)
 
 
-def edit_case(src, root, path, seed, length, ops=None, geometry=None):
+def edit_case(src, root, path, seed, length, ops=None, geometry=None, geo_first=None):
     """One seeded edit sequence on the object at `path` below root, from the loaded state; state restored afterwards.
     geometry: None = at assembly / core level a child's geometry is changed before an edit with probability 1/4;
     "scenario" = the staged sequence (a) edit at this level, (b) geometry change of one child, (c) every setter on a nuclide held by
@@ -877,6 +897,8 @@ def edit_case(src, root, path, seed, length, ops=None, geometry=None):
         info["forced_ops"] = list(ops)
     if geometry:
         info["geometry_mode"] = geometry
+    if geo_first:
+        info["geo_first"] = geo_first
     rng = random.Random("C02:%s:%s:%s:%s" % (src, path, seed, geometry or ""))
     cut = ".cut-block" if lev == "component" and expected_sf(block_of(o)) != 1.0 else ""
     high = lev in ("assembly", "core")
@@ -891,8 +913,10 @@ def edit_case(src, root, path, seed, length, ops=None, geometry=None):
             PREFER[:] = partial_nuclides(o)
             o.getVolumeFractions()
             o.getNumberDensities()
-            plan = [rng.choice(["setNumberDensity", "updateNumberDensities", "addMass"]), "GEOMETRY"]
+            plan = [rng.choice(["setNumberDensity", "updateNumberDensities", "addMass"]), "GEOMETRY:" + (geo_first or "")]
             tail = ["setNumberDensity", "updateNumberDensities", "setMass", "addMass", "setMassFracs"]
+            if big and not T:
+                tail.remove("setMassFracs")  # seconds per call on the 73-assembly core (quick tier: covered on the smallest core and on assemblies)
             rng.shuffle(tail)
             plan += tail[:length] if length < len(tail) else tail
             if rng.random() < 0.5:
@@ -909,9 +933,12 @@ def edit_case(src, root, path, seed, length, ops=None, geometry=None):
         for kind in plan:
             done.append(kind)
             info["ops"] = list(done)
-            if kind == "GEOMETRY":
+            if kind.startswith("GEOMETRY"):
                 try:
-                    do_geometry(src, o, lev, rng, info, st)
+                    forced = kind.partition(":")[2] or None
+                    if forced == "remove-assembly" and lev != "core":
+                        forced = "remove-block"
+                    do_geometry(src, o, lev, rng, info, st, kind=forced)
                 except Exception as e:
                     tb = traceback.extract_tb(e.__traceback__)[-1]
                     V("geometry.raises." + lev, "a geometry change of a child through the public API raised", dict(info, error=repr(e)[:200], at="%s:%s" % (os.path.basename(tb.filename), tb.lineno)))
@@ -1082,7 +1109,7 @@ def main():
                     src = d["source"].split("+")[0]
                     root = root_of(src, d.get("gen"))
                     GEN_CTX[0] = d.get("gen")
-                    edit_case(src, root, d["path"], d["seed"], d["length"], ops=d.get("forced_ops"), geometry=d.get("geometry_mode"))
+                    edit_case(src, root, d["path"], d["seed"], d["length"], ops=d.get("forced_ops"), geometry=d.get("geometry_mode"), geo_first=d.get("geo_first"))
                 elif "source" in d:
                     src = d["source"].split("+")[0]
                     root = root_of(src, d.get("gen"))
@@ -1097,7 +1124,13 @@ def main():
             # ---- (1) accounting on the loaded states
             account_tree("smallest", SOURCES["smallest"], rng)
             account_tree("default", SOURCES["default"], rng, blocksample=None if T else 2)
-            account_tree("edge", SOURCES["edge"], rng, blocksample=None if T else 1)
+            if T:
+                account_tree("edge", SOURCES["edge"], rng, blocksample=None)
+            else:  # quick: the core and the assemblies cut by symmetry lines (the others repeat "default")
+                accounting("edge", SOURCES["edge"], rng)
+                for a in SOURCES["edge"]:
+                    if expected_sf(a[0]) != 1.0:
+                        account_tree("edge", a, rng, blocksample=1)
             B.extra["t_accounting_reactors"] = round(time.time() - B.t0, 1)
             # ---- (3) densityTools
             density_tools(rng, 5000 if T else 300)
@@ -1189,19 +1222,26 @@ def edits_on_reactors(rng, maxlen, budget):
         if src == "smallest":
             chosen, nrep, ncore = list(range(len(assems))), (12 if T else 3), (12 if T else 3)
         elif src == "default":
-            chosen, nrep, ncore = centre + rng.sample(rest, min(len(rest), 16 if T else 4)), (6 if T else 2), (12 if T else 3)
+            chosen, nrep, ncore = centre + rng.sample(rest, min(len(rest), 16 if T else 4)), (6 if T else 2), (6 if T else 2)
         else:
-            chosen, nrep, ncore = rng.sample(cut2, min(len(cut2), 4 if T else 1)), (6 if T else 2), (3 if T else 0)
+            chosen, nrep, ncore = rng.sample(cut2, min(len(cut2), 4 if T else 1)), (6 if T else 2), (2 if T else 0)
         for ai in chosen:
             staged.append((src, [ai], nrep))
         staged.append((src, [], ncore))
     B.extra["staged_targets"] = len(staged)
+    kinds = sorted(set(GEO_KINDS))
+    nth = 0
     for src, path, nseq in staged:
-        for _ in range(nseq):
+        for rep_i in range(nseq):
+            nth += 1
+            first = "remove-assembly" if (not path and src != "smallest" and rep_i == 0) else kinds[nth % len(kinds)]
             if time.time() - B.t0 > budget + 8.0:
                 skip("staged geometry sequences not run within the time budget")
                 continue
-            edit_case(src, SOURCES[src], path, rng.randrange(10 ** 6), rng.randint(3, maxlen), geometry="scenario")
+            t2 = time.time()
+            edit_case(src, SOURCES[src], path, rng.randrange(10 ** 6), rng.randint(3, maxlen), geometry="scenario", geo_first=first)
+            key = "%s-%s" % (src, "core" if not path else "assembly")
+            B.extra["t_staged_by"][key] = round(B.extra["t_staged_by"].get(key, 0.0) + time.time() - t2, 1)
     B.extra["t_staged"] = round(time.time() - t1, 1)
     # dedicated single-operation cases at core level (every setter once, incl. the scale)
     for src in ("smallest", "default"):
